@@ -880,6 +880,8 @@ package xmpp
 // context, before the stanza is sent, and it is gone on every exit.
 //@ func (*Session).sendResp
 //@   noswallow[C06]
+// the wait for the reply ends when the caller's context does
+//@   cancellable[C06]
 //@   callsite (*Session).SendElement#1
 //@     assert[C06] has(s.sentStanzas, id) && s.sentStanzas[id].stanzaName == start.Name && s.sentStanzas[id].ctx == ctx
 //@   ensures[C06] !has(s.sentStanzas, id)
